@@ -68,7 +68,7 @@ def generate(tier, rng):
     for c in fuses_cases():
         yield c
     seps = [b' '] if quick else [b' ', b'  ', b'\t', b' --[[c]] ']
-    for c in mc.pair_cases(rng, seps):
+    for c in mc.pair_cases(rng, seps, cfgs=('default', 'keep-all')):
         yield c
     if not quick:
         for c in mc.pair_cases(rng, [b'\n', b' -- c\n'], cfgs=('default',)):
